@@ -1385,16 +1385,7 @@ namespace avel {
         _mm_mask_storeu_epi16(ptr, mask, decay(v));
 
         #elif defined(AVEL_SSE2)
-        auto undef = _mm_undefined_si128();
-        auto full = _mm_cmpeq_epi8(undef, undef);
-
-        auto w = vec8x16u::width;
-        auto h = vec8x16u::width / 2;
-
-        auto lo = _mm_srl_epi64(full, _mm_cvtsi64_si128(16 * (h - min(h, n))));
-        auto hi = _mm_srl_epi64(full, _mm_cvtsi64_si128(16 * (w - min(w, n))));
-        auto mask = _mm_unpacklo_epi64(lo, hi);
-        _mm_maskmoveu_si128(decay(v), mask, reinterpret_cast<char *>(ptr));
+        store_first_bytes(ptr, decay(v), min(n, vec8x16i::width) * sizeof(std::int16_t));
         #endif
 
         #if defined(AVEL_NEON)
